@@ -117,6 +117,20 @@ def run(tw, tier, seed, only=None):
         for k in range(n):
             cases += 1
             nontriv += check_network(tw, ring[k:] + ring[:k], fails, {"kind": "ring"})
+    # complex graphs of every shape: unimolecular reactions among 3 species (all 63 arc sets) and 4 species (sampled in the quick tier), among them
+    # reversible blocks joined by an irreversible step (every complex on a cycle, yet not weakly reversible)
+    arcs3 = [(a, b) for a in "ABC" for b in "ABC" if a != b]
+    arcs4 = [(a, b) for a in "ABCD" for b in "ABCD" if a != b]
+    shapes = [[arcs3[i] for i in range(6) if m >> i & 1] for m in range(1, 64)]
+    shapes += [[("A", "B"), ("B", "A"), ("B", "C"), ("C", "D"), ("D", "C")], [("A", "B"), ("B", "A"), ("A", "C"), ("C", "D"), ("D", "C")],
+               [("A", "B"), ("B", "C"), ("C", "A"), ("C", "D"), ("D", "D2"), ("D2", "D")]]
+    masks = range(1, 4096) if tier != "quick" else [rng.randrange(1, 4096) for _ in range(120)]
+    shapes += [[arcs4[i] for i in range(12) if m >> i & 1] for m in masks]
+    for sh in shapes:
+        cases += 1
+        nontriv += check_network(tw, [({a: 1}, {b: 1}) for a, b in sh], fails, {"kind": "complex-graph-shape"})
+        if len(fails) > 20:
+            break
     for rxns in gen.small_networks(3, 2, (1, 2) if tier != "quick" else (1,)):
         cases += 1
         nontriv += check_network(tw, rxns, fails, {"kind": "exhaustive"})
